@@ -508,3 +508,165 @@ Qed.
 (* sanitising is idempotent, its result is valid: what a reader gets is a fixed point *)
 Lemma utf8_replacement_runes t : runes (utf8_replacement ++ t) = (0xFFFD, 3%nat, utf8_replacement) :: runes t.
 Proof. unfold utf8_replacement. cbn [app]. rewrite (runes_step _ _ 0xFFFD 3%nat) by reflexivity. reflexivity. Qed.
+
+(* ================= values ================= *)
+
+Lemma jval_ind' (P : jval -> Prop) :
+  (forall s, P (JStr s)) -> (forall t, P (JTxt t)) -> P JNull ->
+  (forall l, Forall P l -> P (JArr l)) ->
+  (forall m, Forall (fun kv => P (snd kv)) m -> P (JObj m)) ->
+  forall v, P v.
+Proof.
+  intros Hs Ht Hn Ha Ho. fix IH 1. intros [s|t| |l|m].
+  - apply Hs.
+  - apply Ht.
+  - apply Hn.
+  - apply Ha. induction l as [|x l IHl]; constructor; [apply IH|exact IHl].
+  - apply Ho. induction m as [|[k x] m IHm]; constructor; [apply IH|exact IHm].
+Qed.
+
+Lemma enc_value_arr l : enc_value (JArr l) = s2l "[" ++ join_comma (map enc_value l) ++ s2l "]".
+Proof. reflexivity. Qed.
+
+Definition enc_member (kv : str * jval) : str := enc_string (fst kv) ++ s2l ":" ++ enc_value (snd kv).
+
+Lemma enc_value_obj m : enc_value (JObj m) = s2l "{" ++ join_comma (map enc_member m) ++ s2l "}".
+Proof. reflexivity. Qed.
+
+Lemma txt_ok_arr l : txt_ok (JArr l) = forallb txt_ok l.
+Proof. reflexivity. Qed.
+
+Lemma txt_ok_obj m : txt_ok (JObj m) = forallb (fun kv => txt_ok (snd kv)) m.
+Proof. reflexivity. Qed.
+
+Lemma join_comma_in c ls : In c (join_comma ls) -> c = ","%char \/ exists l, In l ls /\ In c l.
+Proof.
+  induction ls as [|x [|y r] IH]; intros H.
+  - destruct H.
+  - right. exists x. split; [left; reflexivity|exact H].
+  - change (join_comma (x :: y :: r)) with (x ++ s2l "," ++ join_comma (y :: r)) in H.
+    apply in_app_or in H. destruct H as [H | H].
+    + right. exists x. split; [left; reflexivity|exact H].
+    + apply in_app_or in H. destruct H as [H | H].
+      * left. destruct H as [H | []]. symmetry. exact H.
+      * destruct (IH H) as [E | (l & Hl & Hc)]; [left; exact E|]. right. exists l. split; [right; exact Hl|exact Hc].
+Qed.
+
+Theorem enc_value_no_newline v : txt_ok v = true -> ~ In newline (enc_value v).
+Proof.
+  induction v as [s|t| |l IH|m IH] using jval_ind'; intros Hok Hin.
+  - exact (enc_string_no_newline s Hin).
+  - cbn [txt_ok enc_value] in *. rewrite forallb_forall in Hok. specialize (Hok _ Hin).
+    rewrite Ascii.eqb_refl in Hok. discriminate Hok.
+  - cbn in Hin. repeat (destruct Hin as [Hin | Hin]; [discriminate Hin|]). exact Hin.
+  - rewrite enc_value_arr in Hin. rewrite txt_ok_arr in Hok.
+    apply in_app_or in Hin. destruct Hin as [[Hin | []] | Hin]; [discriminate Hin|].
+    apply in_app_or in Hin. destruct Hin as [Hin | [Hin | []]]; [|discriminate Hin].
+    apply join_comma_in in Hin. destruct Hin as [Hin | (x & Hx & Hc)]; [discriminate Hin|].
+    apply in_map_iff in Hx. destruct Hx as (v & <- & Hv).
+    rewrite Forall_forall in IH. rewrite forallb_forall in Hok. exact (IH v Hv (Hok v Hv) Hc).
+  - rewrite enc_value_obj in Hin. rewrite txt_ok_obj in Hok.
+    apply in_app_or in Hin. destruct Hin as [[Hin | []] | Hin]; [discriminate Hin|].
+    apply in_app_or in Hin. destruct Hin as [Hin | [Hin | []]]; [|discriminate Hin].
+    apply join_comma_in in Hin. destruct Hin as [Hin | (x & Hx & Hc)]; [discriminate Hin|].
+    apply in_map_iff in Hx. destruct Hx as (kv & <- & Hkv). unfold enc_member in Hc.
+    apply in_app_or in Hc. destruct Hc as [Hc | Hc]; [exact (enc_string_no_newline _ Hc)|].
+    apply in_app_or in Hc. destruct Hc as [[Hc | []] | Hc]; [discriminate Hc|].
+    rewrite Forall_forall in IH. rewrite forallb_forall in Hok. exact (IH kv Hkv (Hok kv Hkv) Hc).
+Qed.
+
+(* ---------- sorting ---------- *)
+
+Lemma insert_kv_perm {V} k (v : V) m : Permutation (insert_kv k v m) ((k, v) :: m).
+Proof.
+  induction m as [|[k' v'] m IH]; [apply Permutation_refl|].
+  cbn [insert_kv]. destruct (str_ltb k k'); [apply Permutation_refl|].
+  eapply Permutation_trans; [apply perm_skip; exact IH|apply perm_swap].
+Qed.
+
+Lemma sort_kv_perm {V} (m : list (str * V)) : Permutation (sort_kv m) m.
+Proof.
+  induction m as [|[k v] m IH]; [apply Permutation_refl|].
+  unfold sort_kv in *. cbn [fold_right fst snd].
+  eapply Permutation_trans; [apply insert_kv_perm|apply perm_skip; exact IH].
+Qed.
+
+Lemma forallb_sort_kv {V} (p : str * V -> bool) m : forallb p m = true -> forallb p (sort_kv m) = true.
+Proof.
+  intros H. rewrite forallb_forall in *. intros x Hx. apply H.
+  eapply Permutation_in; [apply sort_kv_perm|exact Hx].
+Qed.
+
+(* ---------- events ---------- *)
+
+Lemma time_char_all : forallb (fun c => implb (time_char_ok c) (negb (Ascii.eqb c newline))) all_bytes = true.
+Proof. vm_compute. reflexivity. Qed.
+
+Lemma time_char_not_newline c : time_char_ok c = true -> negb (Ascii.eqb c newline) = true.
+Proof. intros H. pose proof (byte_forall _ time_char_all c) as G. cbv beta in G. rewrite H in G. exact G. Qed.
+
+Lemma time_json_ok t : time_text_ok t = true -> txt_ok (time_json t) = true.
+Proof.
+  unfold time_text_ok, time_json. intros H. cbn [txt_ok forallb]. rewrite forallb_app. cbn [forallb].
+  change (negb (Ascii.eqb dq newline)) with true. cbn [andb]. rewrite andb_true_r.
+  apply forallb_forall. intros c Hc. rewrite forallb_forall in H. apply time_char_not_newline. apply H. exact Hc.
+Qed.
+
+Lemma jmap_ok m : forallb (fun kv => txt_ok (snd kv)) m = true -> txt_ok (jmap m) = true.
+Proof. intros H. unfold jmap. rewrite txt_ok_obj. apply forallb_sort_kv. exact H. Qed.
+
+Lemma jstr_map_ok m : txt_ok (jstr_map m) = true.
+Proof.
+  unfold jstr_map. apply jmap_ok. apply forallb_forall. intros kv Hkv.
+  apply in_map_iff in Hkv. destruct Hkv as (x & <- & _). reflexivity.
+Qed.
+
+Lemma omit_if_ok b name v : txt_ok v = true -> forallb (fun kv => txt_ok (snd kv)) (omit_if b name v) = true.
+Proof. intros H. destruct b; cbn; [reflexivity|]. rewrite H. reflexivity. Qed.
+
+Theorem event_json_ok e : event_ok e = true -> txt_ok (event_json e) = true.
+Proof.
+  unfold event_ok. intros H.
+  apply andb_true_iff in H. destruct H as [H Hd]. apply andb_true_iff in H. destruct H as [H Hs].
+  apply andb_true_iff in H. destruct H as [Ht Hm].
+  unfold event_json. rewrite txt_ok_obj. rewrite !forallb_app.
+  cbn [forallb fld snd]. rewrite !txt_ok_obj. cbn [forallb fld snd txt_ok].
+  rewrite (omit_if_ok _ _ _ (jmap_ok _ Hm)), (omit_if_ok _ _ _ (jmap_ok _ Hs)), (time_json_ok _ Ht).
+  rewrite (omit_if_ok _ "target" _ (jstr_map_ok _)).
+  assert (txt_ok match je_subjects e with Some m => jstr_map m | None => JNull end = true) as ->
+    by (destruct (je_subjects e); [apply jstr_map_ok|reflexivity]).
+  destruct (je_data e) as [d|]; cbn [forallb fld snd]; [rewrite Hd|]; reflexivity.
+Qed.
+
+Theorem enc_event_no_newline e : event_ok e = true -> ~ In newline (enc_event e).
+Proof. intros H. apply enc_value_no_newline. apply event_json_ok. exact H. Qed.
+
+(* ONE LINE PER EVENT: exactly one newline, the last byte *)
+Theorem enc_line_one_newline e : event_ok e = true ->
+  count_occ ascii_dec (enc_line e) newline = 1%nat /\ last (enc_line e) dq = newline.
+Proof.
+  intros H. pose proof (enc_event_no_newline e H) as Hn. unfold enc_line. split.
+  - rewrite count_occ_app. rewrite (proj1 (count_occ_not_In ascii_dec _ _) Hn). cbn [count_occ].
+    destruct (ascii_dec newline newline) as [_|Hne]; [reflexivity|exfalso; apply Hne; reflexivity].
+  - apply last_last.
+Qed.
+
+(* splitting the output at newlines gives back exactly the events' texts — also when a torn tail follows *)
+Theorem lines_split es t : Forall (fun e => event_ok e = true) es -> ~ In newline t ->
+  frames newline (concat (map enc_line es) ++ t) = (map enc_line es, t).
+Proof.
+  intros Hes Ht.
+  assert (map enc_line es = map (terminate newline) (map enc_event es)) as E by (rewrite map_map; reflexivity).
+  rewrite E. change (concat (map (terminate newline) (map enc_event es)) ++ t) with (frame newline (map enc_event es) t).
+  apply frames_frame; [|exact Ht].
+  intros b Hb. apply in_map_iff in Hb. destruct Hb as (e & <- & He).
+  rewrite Forall_forall in Hes. apply enc_event_no_newline. apply Hes. exact He.
+Qed.
+
+Theorem lines_split_bodies es : Forall (fun e => event_ok e = true) es ->
+  map (strip1 newline) (records newline (concat (map enc_line es))) = map enc_event es.
+Proof.
+  intros Hes. unfold records. rewrite <- (app_nil_r (concat (map enc_line es))).
+  rewrite (lines_split es [] Hes (fun H => H)). cbn [fst]. rewrite map_map.
+  apply map_ext. intros e. apply strip1_terminate.
+Qed.
